@@ -125,7 +125,8 @@ Inductive op :=
 | FieldAsNumpyRw (f : nat)         (* f.asnumpy_rw() *)
 | FieldAdd (f g : nat)             (* f + g | f.unite(g) *)
 | FieldClone (f : nat)             (* pickle.loads(pickle.dumps(f)) | copy.deepcopy(f) *)
-| MkDiag (f : nat).                (* makeOp(f) | DiagonalOperator(f) *)
+| MkDiag (f : nat)                 (* makeOp(f) | DiagonalOperator(f) *)
+| FieldNeg (f : nat).              (* -f | f * (-1) | (-1) * f | f.scale(-1) *)
 
 Inductive exn := EValue | EType | EIndex.
 Inductive res :=
@@ -294,6 +295,17 @@ Definition compile (fixd : bool) (L : nat) (s : st) (o : op) : list prim * res :
       match nth_error (flds s) f with
       | Some a => match any_at s a with
                   | Some y => (lockp fixd (and_ y) a ++ [PDiag a], RDiag nD)
+                  | None => ([], RBad) end
+      | None => ([], RBad)
+      end
+  (* Field.__neg__ (field.py:431-432): return Field(self._domain, -self._val)
+     (f * (-1), (-1) * f, f.scale(-1): _binary_op with a scalar, Field(self._domain, self._val * other)):
+     NumPy allocates a new buffer with one new writeable ndarray (N3), AnyArray wraps it in a new
+     AnyArray, Field.__init__ locks it *)
+  | FieldNeg f =>
+      match nth_error (flds s) f with
+      | Some a => match any_at s a with
+                  | Some y => (PFresh (map Z.opp (nd_val s (and_ y))) true :: PWrap nN :: lockp fixd nN nA ++ [PFld nA], RFld nF)
                   | None => ([], RBad) end
       | None => ([], RBad)
       end
